@@ -70,7 +70,7 @@ def _case(draw, tier):
     kw = {}
     if name.startswith("Parallel"):
         kw["batch_sizes"] = [1]
-    first = draw(gen.pool_case([name], **kw))
+    first = draw(gen.pool_case([name], vary_model=True, **kw))
     fixed = {"K": first["K"], "task": first["task"], "d": len(first["X"][0])}
     rounds = [first]
     for _ in range(draw(st.sampled_from([0, 0, 1, 1, 2]))):
